@@ -91,25 +91,20 @@ Definition after_flush (m : meth) (s : shared) (k : cont) : pc :=
   | KRet v => PEnd (ROk v)
   end.
 
-(* the task runs until its next visible action, the end of the method, or a lock it cannot take *)
+(* LGo = the task acquires the lock it is waiting for (asyncio.Lock.acquire does not suspend when the lock is free):
+   send lock: `if write_bio.pending: await send_all(write_bio.read())` (unconditional in the WANT_WRITE branch);
+   recv lock: `await incoming_reader.readinto(read_bio)` *)
 Definition go (m : meth) (s : shared) (p : pc) : option (shared * pc * list act) :=
-  let recv_part (s : shared) :=
-    if recv_lock s then (s, PRecvWait, [])
-    else (set_recv_lock s true, PRecving, [ARecv]) in
   match p with
   | PFlush k =>
       if send_lock s then None
       else
         let must := match k with KLoop => true | _ => false end in
         match wbio s, must with
-        | [], false =>
-            match after_flush m s k with
-            | PRecvWait => Some (recv_part s)
-            | p' => Some (s, p', [])
-            end
+        | [], false => Some (s, after_flush m s k, [])
         | w, _ => Some (set_send_lock (set_wbio s []) true, PSending k, [ASend w])
         end
-  | PRecvWait => if recv_lock s then None else Some (recv_part s)
+  | PRecvWait => if recv_lock s then None else Some (set_recv_lock s true, PRecving, [ARecv])
   | _ => None
   end.
 
@@ -167,11 +162,17 @@ Definition step (m : meth) (bufsize : nat) (s : shared) (p : pc) (l : lab) : opt
 
 Inductive ans := AS (a : sslans) | AT (t : tans).
 
-Definition settle (m : meth) (s : shared) (p : pc) : shared * pc * list act :=
-  match go m s p with
-  | Some r => r
-  | None => (s, p, [])
+(* without contention every lock is taken at once: at most a skipped flush followed by the read (or the return) *)
+Fixpoint settle_n (fuel : nat) (m : meth) (s : shared) (p : pc) : shared * pc * list act :=
+  match fuel with
+  | 0 => (s, p, [])
+  | S f =>
+      match go m s p with
+      | Some (s1, p1, a1) => let '(s2, p2, a2) := settle_n f m s1 p1 in (s2, p2, a1 ++ a2)
+      | None => (s, p, [])
+      end
   end.
+Definition settle := settle_n 3.
 
 (* run the pump of one method over the answers; returns the state, the result, the actions and the unused answers *)
 Fixpoint retry (m : meth) (bufsize : nat) (s : shared) (p : pc) (answers : list ans) : shared * result * list act * list ans :=
@@ -200,3 +201,50 @@ Definition run_method (m : meth) (bufsize : nat) (s : shared) (answers : list an
   (s2, r, acts1 ++ acts2, rest).
 
 Definition shared0 : shared := {| wbio := []; deque := []; send_lock := false; recv_lock := false |}.
+
+(* ---- several tasks on one transport (full duplex): the trace is a list of labels, each addressed to one task ---- *)
+
+Record task := { t_meth : meth; t_buf : nat; t_pc : pc }.
+Record sys := { y_sh : shared; y_tasks : list task }.
+
+Inductive slab :=
+| SSpawn (m : meth) (bufsize : nat) (chunks : list bytes)   (* a task enters _retry_ssl_method(m); send: the data is queued *)
+| SStep (t : nat) (l : lab).
+
+Definition sys0 : sys := {| y_sh := shared0; y_tasks := [] |}.
+
+Fixpoint set_nth {X} (n : nat) (x : X) (l : list X) : list X :=
+  match l, n with
+  | [], _ => []
+  | _ :: l', 0 => x :: l'
+  | y :: l', S n' => y :: set_nth n' x l'
+  end.
+
+Definition sys_step (y : sys) (l : slab) : option (sys * list (nat * act)) :=
+  match l with
+  | SSpawn m b chunks =>
+      let s1 := match m with MWrite => set_deque (y_sh y) (deque (y_sh y) ++ chunks) | _ => y_sh y end in
+      Some ({| y_sh := s1; y_tasks := y_tasks y ++ [{| t_meth := m; t_buf := b; t_pc := pcall m s1 |}] |}, [])
+  | SStep t lb =>
+      match nth_error (y_tasks y) t with
+      | None => None
+      | Some tk =>
+          match step (t_meth tk) (t_buf tk) (y_sh y) (t_pc tk) lb with
+          | None => None
+          | Some (s1, p1, a) =>
+              Some ({| y_sh := s1; y_tasks := set_nth t {| t_meth := t_meth tk; t_buf := t_buf tk; t_pc := p1 |} (y_tasks y) |},
+                    map (fun x => (t, x)) a)
+          end
+      end
+  end.
+
+(* run a whole trace; a label the model cannot take ends the run with a desync marker *)
+Fixpoint sys_run (y : sys) (ls : list slab) : sys * list (nat * act) :=
+  match ls with
+  | [] => (y, [])
+  | l :: ls' =>
+      match sys_step y l with
+      | None => (y, [(0, ADesync)])
+      | Some (y1, a1) => let '(y2, a2) := sys_run y1 ls' in (y2, a1 ++ a2)
+      end
+  end.
